@@ -296,6 +296,56 @@ def specDump (g : Ghost) (mem cur rot : List Nat) : Option String :=
   else if mem ≠ want .mem ∨ cur ≠ want .cur ∨ rot ≠ want .rot then some "C07.log-location"
   else none
 
+/-! ## Histories in which the clock steps back
+
+When the system clock is stepped back between two records (NTP correction,
+manual change) the order of recording and the order of the recorded times
+differ.  "Newest first" is then the order of the recorded times; the returned
+cursor of such a history promises nothing (paging by `older_than` presupposes a
+forward-moving clock, `histOK`).  What the property still demands of every
+answer: recorded entries only, each once, with the client and payload they were
+recorded with, at most `limit` of them, no entry before a newer one — and the
+whole visible log when the request asks for all of it from offset 0. -/
+
+/-- No time is followed by a later one. -/
+def newestFirst : List Int → Bool
+  | a :: b :: rest => decide (b ≤ a) && newestFirst (b :: rest)
+  | _ => true
+
+def noDupIds : List Nat → Bool
+  | [] => true
+  | a :: rest => !rest.contains a && noDupIds rest
+
+/-- `none` = fine, `some reason` = which clause of the property is broken. -/
+def specSearchStepped (g : Ghost) (r : Req) (ans : Answer) : Option String :=
+  match ans with
+  | .crash => some "C07.crash"
+  | .status code =>
+    match ask r with
+    | none => none
+    | some _ => some ("C07.rejected-valid-request:" ++ toString code)
+  | .ok p =>
+    match ask r with
+    | none => none
+    | some a =>
+      let vis := visible g a
+      let ids := p.items.map (·.id)
+      let look (id : Nat) : Option Entry := vis.find? (fun e => e.id == id)
+      -- every returned entry is a recorded entry satisfying the filters, once
+      if !(ids.all (fun i => (look i).isSome) && noDupIds ids) then some "C07.unsound"
+      -- ... reported with the client it was recorded with
+      else if !(p.items.all (fun it => match look it.id with
+                  | some e => it.client == reportedClient g.conf e
+                  | none => false)) then some "C07.client"
+      else if !p.items.all (·.payloadOK) then some "C07.payload"
+      else if ids.length > a.limit then some "C07.limit"
+      -- newest first: by the time each entry was recorded with
+      else if !newestFirst ((ids.filterMap look).map (·.ts)) then some "C07.order"
+      -- everything, when everything from offset 0 is asked for
+      else if a.olderThan.isNone && a.offset == some 0 && decide (vis.length ≤ a.limit)
+              && ids.length != vis.length then some "C07.page-stepped"
+      else none
+
 /-! ## Histories -/
 
 /-- One event of a history: an operation on the log or a request to the API
